@@ -192,12 +192,12 @@ func (r *standardRenderer) flush() {
 	if flushQueuedMessages {
 		// Dump the lines we've queued up for printing.
 		for _, line := range r.queuedMessageLines {
-			if ansi.StringWidth(line) < r.width {
-				// We only erase the rest of the line when the line is shorter than
-				// the width of the terminal. When the cursor reaches the end of
-				// the line, any escape sequences that follow will only affect the
-				// last cell of the line.
-
+			// Erase the rest of the row the line ends on, so that nothing
+			// of the previous frame stays glued to it. A line wider than
+			// the terminal wraps; only when it ends exactly at the right
+			// margin is there nothing left to erase (and an escape
+			// sequence there would affect the last cell of the row).
+			if w := ansi.StringWidth(line); r.width > 0 && (w == 0 || w%r.width != 0) {
 				// Removing previously rendered content at the end of line.
 				line = line + ansi.EraseLineRight
 			}
